@@ -223,37 +223,42 @@ func scriptName(ss [][]op) string {
 
 func main() {
 	rep := kit.New("C19", "model_checking")
-	alpha := []op{{"a", 1}, {"a", 2}, {".a", 2}, {"b", 1}}
+	small := []op{{"a", 1}, {"a", 2}, {".a", 2}, {"b", 1}}
+	big := []op{{"a", 1}, {"a", 2}, {".a", 2}, {".a", 3}, {"b", 1}, {"a", 0}}
+	alpha := small
 	nthreads, maxLen, bound := 2, 2, 3
 	model_ := vrt.CostDelay
-	if rep.Thorough() {
-		alpha = []op{{"a", 1}, {"a", 2}, {".a", 2}, {".a", 3}, {"b", 1}, {"a", 0}}
-		bound = 4
-	}
-	all := scripts(alpha, maxLen)
 	var scns []*vrt.Scenario
-	add := func(ss [][]op) {
+	add := func(ss [][]op, b int) {
 		cp := ss
 		scns = append(scns, &vrt.Scenario{
-			Name:  scriptName(cp),
+			Name:  fmt.Sprintf("%s (bound %d)", scriptName(cp), b),
 			Cfg:   vrt.Config{Groups: map[string]bool{"c19": true}, Horizon: time.Hour},
 			Model: model_,
-			Bound: bound,
+			Bound: b,
 			New:   func() vrt.Exec { return &exec{scripts: cp} },
 		})
 	}
-	for i := range all {
-		for j := i; j < len(all); j++ {
-			// at least one name shared between the threads, else nothing can collide
-			add([][]op{all[i], all[j]})
+	pairs := func(al []op, b int) {
+		all := scripts(al, maxLen)
+		for i := range all {
+			for j := i; j < len(all); j++ {
+				add([][]op{all[i], all[j]}, b)
+			}
 		}
 	}
-	if rep.Thorough() {
-		// three dispatchers, one point each, all combinations with repetition
-		for i := range alpha {
-			for j := i; j < len(alpha); j++ {
-				for k := j; k < len(alpha); k++ {
-					add([][]op{{alpha[i]}, {alpha[j]}, {alpha[k]}})
+	if !rep.Thorough() {
+		pairs(small, bound)
+	} else {
+		// thorough: the larger alphabet at bound 3, the small one at bound 4, three dispatchers at bound 3
+		alpha = big
+		pairs(big, 3)
+		pairs(small, 4)
+		bound = 4
+		for i := range big {
+			for j := i; j < len(big); j++ {
+				for k := j; k < len(big); k++ {
+					add([][]op{{big[i]}, {big[j]}, {big[k]}}, 3)
 				}
 			}
 		}
